@@ -1,7 +1,7 @@
 SPECIFICATION Spec
 CONSTANTS
-  FileSet <- FilesF1
-  QuerySeq <- QueriesFq
+  CaseSet <- CasesF1
+  QueriesOf <- QOf
   StarFix = TRUE
   SubjectFix = TRUE
   CAListsPlain = FALSE
